@@ -496,6 +496,29 @@ impl Check for C11 {
         }
     }
 
+    fn generate_stream(&self, stream: &str, rng: &mut Rng, idx: usize, tier: Tier) -> Scn {
+        if stream != "corpus" {
+            return self.generate(rng, idx, tier);
+        }
+        // victims are author-written snippets (no deliberate global effects), abandoned at arbitrary
+        // steps or run out; observers as in the generated stream
+        let mut scn = self.generate(rng, idx, tier);
+        let c = crate::corpus::corpus();
+        let list: Vec<&crate::corpus::Entry> = c.snippets.iter().filter(|e| e.self_contained()).collect();
+        let e = list[idx % list.len().max(1)];
+        let end = if rng.chance(0.3) { End::RunOut } else { End::AbandonSteps };
+        scn.victims = vec![Victim {
+            import: None,
+            withhold: false,
+            case: e.to_case(),
+            module_path: if rng.chance(0.5) { Some("/victims/c.ts".into()) } else { None },
+            end,
+            tape: Tape::random(rng, 8),
+            gc: if rng.chance(0.6) { GcSched::off() } else { random_gc(rng) },
+        }];
+        scn
+    }
+
     fn shrink(&self, scn: &Scn) -> Vec<Scn> {
         let mut out = Vec::new();
         if scn.victims.len() > 1 {
